@@ -11,7 +11,7 @@ import (
 
 func main() {
 	c := vlib.NewCheck("C05", "model_checking")
-	c.Set("rule", "part 1: TLC checks ExecConc (Termination, NoLeak, Ends under fairness) for N in {2,3} resolvers x worker_limit in {0,1,2} x deferred groups x {drain, one payload}; every edge of every state graph is covered by a path that is replayed into the generated server through resolver gates and cancellation (a class = one (configuration, edge-covering path)). part 2: sweeps on generated servers - each corpus / random operation cancelled after its k-th resolver event for every k, unscheduled and with gated fifo / lifo completion, executor-direct (all payloads / first payload only) and over the real POST, GET, SSE and multipart/mixed transports with a disconnecting client, plus the @defer operations with failing / null resolvers drained without cancellation (a class = (worker_limit, defer?, mode, faults?, k, schedule)). A hang = the response function or handler did not return within 5 s after the last resolver returned; a leak = goroutines with gqlgen or probe frames alive 1.5 s after the request ended; both are confirmed by a rerun with 10x the waits before they count")
+	c.Set("rule", "part 1: TLC checks ExecConc (Termination, NoLeak, Ends under fairness) for N in {2,3} resolvers x worker_limit in {0,1,2} x deferred groups x {drain, one payload}; every edge of every state graph is covered by a path that is replayed into the generated server through resolver gates and cancellation (a class = one (configuration, edge-covering path)). part 2: sweeps on generated servers - each corpus / random operation cancelled after its k-th resolver event for every k, unscheduled and with gated fifo / lifo completion, executor-direct (all payloads / first payload only) and over the real POST, GET, SSE, multipart/mixed and websocket (graphql-transport-ws, gorilla client, abrupt TCP close; plus a client that never sends connection_init against the init timeout) transports with a disconnecting client, plus the @defer operations with failing / null resolvers drained without cancellation (a class = (worker_limit, defer?, mode, faults?, k, schedule)). A hang = the response function or handler did not return within 5 s after the last resolver returned; a leak = goroutines with gqlgen or probe frames alive 1.5 s after the request ended; both are confirmed by a rerun with 10x the waits before they count")
 	c.Set("trusted_base", []string{"TLC", "the in-probe scheduler (gates at resolver entry)", "goroutine-dump filtering (frames of gqlgen and of the generated package)", "wall-clock bounds for 'did not return' (confirmed by reruns)"})
 	thorough := vlib.Tier() == "thorough"
 	vs := []vlib.Variant{
@@ -119,7 +119,7 @@ func main() {
 				continue
 			}
 			seen[k] = true
-			for _, tp := range []string{"tp:post", "tp:get", "tp:sse", "tp:mixed"} {
+			for _, tp := range []string{"tp:post", "tp:get", "tp:sse", "tp:mixed", "tp:ws"} {
 				for _, sched := range []string{"", "fifo"} {
 					if !thorough && sched == "fifo" && k%2 == 1 {
 						continue
@@ -129,6 +129,12 @@ func main() {
 				}
 			}
 		}
+	}
+	// a websocket client that upgrades and never sends connection_init: the server's init
+	// timeout ends the connection; nothing may stay behind
+	for i := 0; i < 3 && i < len(ops); i++ {
+		all = append(all, &vlib.Scenario{ID: fmt.Sprintf("%s-noinit-tp:ws", ops[i].ID), Op: ops[i].Op, Query: ops[i].Query, Vars: ops[i].Vars,
+			Mode: "tp:ws-noinit", Leak: true})
 	}
 	// termination must not depend on the outcome: the @defer operations again with failing
 	// / null resolvers (an object nulled by its own non-null field next to a deferred
@@ -168,6 +174,8 @@ func main() {
 			}
 		}
 	}
+	byMode := map[string]int{}
+	wsEnds := map[string]int{}
 	for _, v := range vs {
 		var scs []*vlib.Scenario
 		for _, t := range all {
@@ -180,6 +188,20 @@ func main() {
 		}
 		for _, s := range scs {
 			c.AddEvals(1)
+			m := s.Mode
+			if m == "" {
+				m = "executor-direct"
+			}
+			byMode[m]++
+			if s.Result != nil && strings.HasPrefix(s.Mode, "tp:ws") {
+				for _, n := range s.Result.Notes {
+					if i := strings.Index(n, "end="); strings.HasPrefix(n, "transport tp:ws") && i >= 0 {
+						wsEnds[s.Mode+" "+n[i:]]++
+					} else if strings.HasPrefix(n, "transport tp:ws dial failed") {
+						wsEnds["dial-failed"]++
+					}
+				}
+			}
 			if c.Violations() >= 6 {
 				break // enough evidence; confirmation reruns of hangs are slow
 			}
@@ -206,6 +228,11 @@ func main() {
 			s := scs[len(scs)/2]
 			c.Sample(map[string]any{"variant": v.ID(), "query": s.Query, "cancel_at": s.Cancel, "sched": s.Sched, "mode": s.Mode})
 		}
+	}
+	c.Set("scenarios_by_mode", byMode)
+	c.Set("websocket_sessions_by_end", wsEnds)
+	if c.Violations() == 0 && (wsEnds["tp:ws end=complete"] == 0 || wsEnds["tp:ws-noinit end=closed-by-server"] == 0) {
+		vlib.Infra("vacuous websocket pass: sessions by end = %v", wsEnds)
 	}
 	c.Finish()
 }
